@@ -158,6 +158,14 @@ func subPartition(p *partitions, group int) {
 			}
 		})
 
+		// Distinguish states that differ in the non-greedy mark. An accepting
+		// non-greedy state stops consuming input, so merging it with a state
+		// that keeps consuming would change what the DFA recognizes.
+		if first.NonGreedy != s.NonGreedy {
+			move.Add(s)
+			return
+		}
+
 		// Distinguish states that have different accepting NFA states.
 		// This is not covered in theory, as far as I could determine.
 		// Given the example below:
